@@ -24,7 +24,7 @@ EXPLANATION = (
     'assembly gives every positional parameter exactly one outcome; (g) '
     'Functor._on_change processes every update of a batch.  Agreement with '
     'the interpreter\'s binding rules is differential and not decided.')
-FLOORS = {'C18.a': 4, 'C18.b': 1, 'C18.c': 1, 'C18.d': 2, 'C18.e': 1, 'C18.f': 1, 'C18.g': 1}
+FLOORS = {'C18.a': 4, 'C18.b': 1, 'C18.c': 1, 'C18.d': 2, 'C18.e': 1, 'C18.f': 1, 'C18.g': 1, 'C18.h': 1, 'C18.i': 2}
 FILES = ['pyglove/core/symbolic/functor.py', 'pyglove/core/symbolic/class_wrapper.py',
          'pyglove/core/symbolic/symbolize.py', 'pyglove/core/typing/callable_signature.py',
          'pyglove/core/coding/function_generation.py', 'pyglove/core/symbolic/object.py']
@@ -307,6 +307,107 @@ def rule_g(ctx):
          '; '.join(problems))
 
 
+def rule_h(ctx):
+  """What counts as "specified by the user" depends on presence only: an
+  argument leaves the specified set exactly when it is rebound to the MISSING
+  marker and (re-)enters it on every other rebind - also when the new value
+  happens to equal the default (`factor=1.0` over default `1` is a binding)."""
+  idx = ctx.index
+  f = idx.func(FN + '_on_change')
+  g = C.cfg_of(f.node)
+  def calls(n, what):
+    return any(A.call_name(c) == what for c in n.calls())
+  disc = [n for n in g.nodes if n.ast is not None and calls(n, 'self._specified_args.discard')]
+  adds = [n for n in g.nodes if n.ast is not None and calls(n, 'self._specified_args.add')]
+  problems = []
+  if not disc or not adds:
+    problems.append('the specified-argument set is no longer maintained in _on_change')
+  else:
+    def is_missing_test(t):
+      if t.kind != 'test' or not isinstance(t.ast, ast.Compare) or len(t.ast.ops) != 1 or not isinstance(t.ast.ops[0], ast.Eq):
+        return False
+      l, r = A.unparse(t.ast.left), A.unparse(t.ast.comparators[0])
+      return (l.endswith('MISSING_VALUE') and r.endswith('new_value')) or (r.endswith('MISSING_VALUE') and l.endswith('new_value'))
+    mt = [t for t in g.nodes if is_missing_test(t)]
+    if not mt:
+      problems.append('membership is not decided by a comparison of the new value with MISSING_VALUE')
+    else:
+      t_edges = {(t.id, m.id, l) for t in mt for m, l in t.succ if l == 'true'}
+      f_edges = {(t.id, m.id, l) for t in mt for m, l in t.succ if l == 'false'}
+      seen, _ = g.reach(g.entry, blocked_edges=t_edges, follow_exc=False)
+      for d in disc:
+        if d.id in seen:
+          problems.append(f'an argument is dropped from the specified set (line {d.lineno}) although its new value is not '
+                          f'MISSING_VALUE: binding a value equal to the default makes the functor call with the default object')
+      seen, _ = g.reach(g.entry, blocked_edges=f_edges, follow_exc=False)
+      for a_ in adds:
+        if a_.id in seen:
+          problems.append(f'an argument rebound to MISSING_VALUE is (re-)added to the specified set (line {a_.lineno})')
+      # when not MISSING, the add is unavoidable for a top-level update
+      for t in mt:
+        for m, lab in t.succ:
+          if lab == 'false' and m not in adds and g.can_skip(m, lambda n: n in adds, to=None):
+            loops = [k for k in g.nodes if k.kind in ('iter', 'loophead')]
+            seen2, _ = g.reach(m, blocked_nodes={x.id for x in adds}, follow_exc=False)
+            if any(k.id in seen2 for k in loops) or g.exit.id in seen2:
+              problems.append('a non-MISSING rebind can leave the specified set unchanged')
+  ctx.ob('C18.h', f.fq, not problems,
+         'an argument is "specified" exactly when its current value is not the MISSING marker (equality with the '
+         'default plays no role)', f.loc, '; '.join(sorted(set(problems))))
+
+
+def rule_i(ctx):
+  """(1) Object.__init__ raises "got multiple values" whenever a keyword names
+  an argument that a positional already filled - decided by membership, never
+  by the truth value of the positional (0, None, '' are arguments).
+  (2) A symbolized class re-runs the user __init__ on a clean slate: every time
+  the wrapper becomes concrete, _on_reset() runs first and unconditionally
+  drops everything but the wrapper's own attributes."""
+  idx = ctx.index
+  f = idx.func('pyglove.core.symbolic.object.Object.__init__')
+  g = C.cfg_of(f.node)
+  loops = [k for k in g.nodes if k.kind == 'iter' and A.unparse(k.ast.iter).startswith('kwargs.items')]
+  problems = []
+  if not loops:
+    problems.append('the keyword-argument loop vanished')
+  else:
+    kv = A.assigned_names(loops[0].ast.target)
+    tests = [t for t in g.nodes if t.kind == 'test' and isinstance(t.ast, ast.Compare) and len(t.ast.ops) == 1
+             and isinstance(t.ast.ops[0], ast.In) and isinstance(t.ast.left, ast.Name) and t.ast.left.id in kv
+             and A.unparse(t.ast.comparators[0]) == 'field_args']
+    if not tests:
+      problems.append('no membership test `<keyword> in field_args`')
+    for t in tests:
+      if not g.always_raises_from(t, 'true'):
+        problems.append('a keyword that repeats a positional argument does not always raise TypeError (the check also '
+                        'depends on something else, e.g. the truth value of the positional)')
+  ctx.ob('C18.i', f.fq, not problems,
+         'a positional/keyword duplicate raises TypeError whatever the values are', f.loc, '; '.join(problems))
+  c = idx.find_class('pyglove.core.symbolic.class_wrapper._SubclassedWrapperBase')
+  if c is None:
+    raise AnalysisError('_SubclassedWrapperBase vanished')
+  rs, ob = c.methods.get('_on_reset'), c.methods.get('_on_bound')
+  problems = []
+  grs = C.cfg_of(rs.node)
+  clr = [k for k in grs.nodes if k.ast is not None and any(A.call_name(cl) == 'self.__dict__.clear' for cl in k.calls())]
+  if not clr:
+    problems.append('_on_reset no longer clears the instance dict')
+  elif grs.can_skip(grs.entry, lambda n: n in clr):
+    problems.append('_on_reset can return without dropping the state of the previous __init__ run')
+  gob = C.cfg_of(ob.node)
+  init = [k for k in gob.nodes if k.ast is not None and any(A.call_name(cl) == 'self._call_init' for cl in k.calls())]
+  reset = [k for k in gob.nodes if k.ast is not None and any(A.call_name(cl) == 'self._on_reset' for cl in k.calls())]
+  if not init or not reset:
+    problems.append('_on_bound no longer resets before re-initialising')
+  else:
+    seen, _ = gob.reach(gob.entry, blocked_nodes={k.id for k in reset}, follow_exc=False)
+    if any(k.id in seen for k in init):
+      problems.append('the user __init__ can re-run without _on_reset()')
+  ctx.ob('C18.i', rs.fq, not problems,
+         'before the user __init__ is re-run the wrapper unconditionally drops the state left by the previous run',
+         rs.loc, '; '.join(problems))
+
+
 def run(ctx):
   ctx.consult(*FILES)
   rule_a(ctx)
@@ -316,4 +417,6 @@ def run(ctx):
   rule_e(ctx)
   rule_f(ctx)
   rule_g(ctx)
+  rule_h(ctx)
+  rule_i(ctx)
   ctx.assume('agreement with the interpreter\'s argument binding is differential by nature: not decided')
